@@ -712,7 +712,7 @@ class _Engine:
         _ = prop
         quick = tier == "quick"
         return {
-            "n_runs": 40_000 if quick else 1_500_000,
+            "n_runs": 56_000 if quick else 1_500_000,
             "chunk": 500 if quick else 2500,
             "wall_budget_s": 100 if quick else 1500,
             "level": "exploration",
